@@ -184,8 +184,8 @@ theorem implHeader_ok (o : Opts) (mode : InputMode) (subAttrs : List Attr) (trai
         exact analyzeFns_zip .selfRef o (fun s tf => s.depByValue == tf.sig.takesSelfByValue) sigs {} tg fns
           (fun s _ tg0 tf tg1 h => by simp [takesSelfByValue_spec (fnModeSpec h) hn]) han
       rw [himk]
-      simp only [implParams, List.cons_append, List.nil_append, implTParamOk, List.head?_cons, implTParam, implSelfTy,
-        implWherePreds, hb, hbv, Bool.and_eq_true, ImplIndirection.isNone, if_true]
+      simp only [implTParamOk, macroParam_generic, implTParam, implSelfTy,
+        implWherePreds, hb, hbv, Bool.and_eq_true, ImplIndirection.isNone, if_true, entraitT]
       refine ⟨⟨sameMultiset_refl _, by simp⟩, ?_⟩
       unfold wherePredsOk
       cases hde : (sigs.flatMap Sig.declaredDepBounds).isEmpty
@@ -219,8 +219,8 @@ theorem implHeader_ok (o : Opts) (mode : InputMode) (subAttrs : List Attr) (trai
       | cons tf rest ih =>
         simp [depsBounds, (hall tf List.mem_cons_self).1, ih (fun x hx => hall x (List.mem_cons_of_mem _ hx))]
     rw [himk]
-    simp only [implParams, List.cons_append, List.nil_append, implTParamOk, implTParam, List.head?_cons, hbv, implSelfTy,
-      implWherePreds, hdb, Bool.and_eq_true, Bool.false_eq_true, if_false, List.append_nil]
+    simp only [implTParamOk, macroParam_generic, implTParam, hbv, implSelfTy,
+      implWherePreds, hdb, Bool.and_eq_true, Bool.false_eq_true, if_false, List.append_nil, entraitT]
     refine ⟨⟨sameMultiset_refl _, by simp⟩, ?_⟩
     simp only [wherePredsOk, List.isEmpty_nil, if_true, List.nil_append]
     simpa [List.all_eq_true] using hpreds'
